@@ -8,6 +8,22 @@ NOTE = ("Trusted: Lean 4.33.0 kernel (axioms propext, Classical.choice, Quot.sou
         "Modelled rather than verified: Vec/HashMap/BinaryHeap/String as lists, u8/u16/usize as Nat, panics as a result value. ")
 
 CLAIMS = {
+ 'C01': ("PARTIAL (stage 1 of 3). Theorems in Purr/Props/C01.lean, for EVERY adjacency list with an atom that passes validation and every accepted string: the traversal's events are written without a panic, the reader ACCEPTS the text and "
+         "replays exactly the traversal's events (no atom, bond, charge or ring closure lost, duplicated, retargeted or relabelled between the traversal's event stream and the re-read one — via T-wr), so building from the text equals building "
+         "from the traversal's events (text eliminated); whatever is built is a well-formed simple graph (C10) that the traversal accepts (C11). MISSING: the round-trip core RTC (build(walk g) is g renumbered in traversal order) — in progress; "
+         "until then the isomorphism itself is decided on every run by the oracle (walk, write, read, build on the real code; isomorphism test along the traversal order with a bounded backtracking fallback) and the S-graph/S-read correspondence. "
+         "Known findings D17 (>99 open ring closures) and D19 (empty graph writes the empty string) are listed.",
+         "Lean 4 proof that text is eliminated from the round trip (T-wr + conformance + builder invariant) + isomorphism oracle on the real round trip", "4.1"),
+ 'C02': ("PARTIAL (stage 1). Theorems in Purr/Props/C02.lean for every event history: one atom per atom token in order of appearance with the written attributes (mark adjusted per C03's convention for non-root atoms with a hydrogen); "
+         "a dot creates no bond; an atom after a (possibly elided) bond is recorded on both ends, near end with the written kind, far end reversed, arrival bond first; ring digits are recorded in place; an elided closure side takes the other "
+         "side's kind (reversed when directional) — the full 64-row reconcile table. MISSING: build = denote for the independent non-incremental denotation (partners in written order, nearest-preceding-open pairing); decided on every run by "
+         "the oracle's independent interpreter of SMILES compared with Builder::build() on every accepted string, incl. bond-list order.",
+         "Lean 4 proof of the per-event clauses of the denotation + differential comparison with an independent SMILES interpreter", "4.2"),
+ 'C03': ("PARTIAL (stage 1). Theorems in Purr/Props/C03.lean, for every atom kind, bond list and entry position: the walker hands a child entered through bond index j to the follower with its @/@@ mark flipped iff j + hasH is odd; the builder's "
+         "extend flips iff hasH; the composition flips iff j is odd, i.e. iff moving the entry bond to the front is an odd permutation of the neighbour order (hydrogen counted first in the graph, after the preceding atom in text); flipping is an "
+         "involution that only exchanges @ and @@ and touches no other field, so every other configuration is carried unchanged; ring closures and extend record directional bonds with mutually reversed kinds. MISSING: the lift to whole graphs (RTC). "
+         "Until then: geometric oracle on the real round trip (signed permutation between original and re-read neighbour orders, hydrogen included) and S-graph correspondence over a stereo family (root / chain / ring-closing centre x arrival index 0-3 x +-H x both marks).",
+         "Lean 4 proof of the local parity law (walker, builder and their composition, all kinds and positions) + geometric permutation-parity oracle", "4.3"),
  'C04': ("PARTIAL. Theorems in Purr/Props/C04.lean: completeness on the writer's image — every protocol-conformant non-empty history (any nesting, dots in branches, any ring numbers and bond kinds, every atom kind with every "
          "bracket-field combination) is spelled by the writer as a string the reader accepts (corollary of T-wr, C09); every accepted string has a conformant non-empty history whose normal-form text is accepted again and replays the same "
          "events; the verdict is never a panic; token languages are characterised by C07. The verdict's independence of the follower is structural in the model (read returns the events) and is checked of the code by running every string "
@@ -59,6 +75,10 @@ CLAIMS = {
          "The full converse 'well-formed => Ok' is false of the code beyond 99 simultaneously open ring closures (panic, known finding D17 under C06), so the theorem states Ok-or-panic; below that bound C13's theorems apply. "
          "Tie: verdict, events and writer text of walk compared with the model on exhaustive small graphs (garbage included) and single-defect mutations.",
          "Lean 4 proof (validate decides an independent well-formedness predicate; traversal invariant) + differential correspondence on exhaustive small graphs and mutations", "4.11"),
+ 'C12': ("PARTIAL (stage 1). Theorems in Purr/Props/C12.lean: a newly reached atom's other bonds are scheduled in exactly the order of its bond list and only the bond(s) back to the atom it was entered from are taken out; a component root "
+         "schedules its whole list; on re-reading, the builder records the arrival bond first and appends every later bond / ring digit at the end of the head's list, in place. MISSING: the global bond-list clause of RTC. Until then: order oracle on the real "
+         "round trip (each re-read bond list must equal the original with the arrival bond moved to the front, under the depth-first order defined by the property text) and S-graph correspondence over every order of every bond list of all small graphs.",
+         "Lean 4 proof of the scheduling-order lemmas of traversal and builder + exact bond-list order oracle on the real round trip", "4.12"),
  'C13': ("Theorems in Purr/Props/C13.lean about the ring-number pool, for every sequence of hits (every reachable interleaving of openings and closings): the pool invariant "
          "(open and returned numbers partition 1..counter-1, no duplicates, one entry per unordered pair) holds in every reachable state; an opening hit returns the least number >= 1 not currently open; "
          "a closing hit returns the number its pair was opened with and that number is free at once; an opening number never exceeds the count of open closures plus one, hence "
@@ -73,6 +93,14 @@ CLAIMS = {
          "EXACTLY with the model depth on every generated string, plus soak runs of read->build->walk->write on 2*10^5 (thorough 10^6) atom families in a child process with the default and a 2 MiB stack. walk, Writer and Builder are loops "
          "over explicit Vecs (reviewed fact about the code, exercised by the soak).",
          "Lean 4 proof bounding recursion depth by nesting for all inputs + exact differential comparison with an activation-counter hook + child-process soak at 10^6 atoms", "4.19"),
+ 'C14': ("Determinism: the model is a pure function (stated), and no model result depends on map iteration order — pool lookup is invariant under permutation of the entries given the key-uniqueness invariant (pool_find_perm). The hash seed itself "
+         "cannot be exhibited by a theorem: every well-formed input is written in fresh threads (fresh RandomState) by the oracle and must give identical bytes. Fixed point, PARTIAL (stage 1): for every adjacency list the written text is reproduced "
+         "character for character by read-then-write (via T-wr); the full read-build-walk-write fixed point needs RTC (in progress) and is decided by the rewrite(rewrite x) = rewrite x oracle on the real code.",
+         "Lean 4 proof (order-independence of keyed lookups; text-level fixed point via T-wr) + repeated-run / rewrite-twice oracle", "4.14"),
+ 'C15': ("PARTIAL (stage 1). Theorems in Purr/Props/C15.lean for EVERY string: the trace never panics on the reader's calls; the i-th atom range (a,b) satisfies a < b <= |s| and reading an atom at s.drop a succeeds and stops exactly at s.drop b "
+         "(slicing the input there gives the token); the table has exactly one entry per atom event (ids past the last atom map to nothing); the k-th ring-closure token likewise. MISSING: the bond table and the identification with atom ids of the built graph "
+         "(builder/trace lock-step). Until then: the complete trace dump of the real Trace (all atom ranges, every bond key in both directions, ring digits) is compared with the model on every string, and an oracle recomputes spans and bond cursors from an independent tokeniser.",
+         "Lean 4 proof that recorded ranges are exactly token boundaries (located-event invariant over the reader) + full trace-dump correspondence", "4.15"),
  'C16': ("Theorem debracket_sound (Purr/Props/C16.lean): for every atom kind and every bond-order sum (an unbounded Nat), whenever debracket returns, the result has the same "
          "element or wildcard, the same aromatic flag and the same hydrogen count at that sum; kinds with isotope/configuration/charge/map and unbracketed kinds are "
          "returned unchanged; debracket returns whenever the sum plus hydrogen count fits a byte. Tie: symbol x hcount x sum x field-presence compared with the code.",
